@@ -284,10 +284,15 @@ def Cert.ok := Cert.okB Equiv.bound
 
 /-! ### the whole verdict -/
 
+/-- the problem the loup point is a witness of: in rigor mode (`LoupFinderCertify`) the ORIGINAL problem — equalities
+    hold exactly, not within `eps_h` (a point returned in rigor mode must satisfy them exactly; a thin box must contain an
+    exactly feasible point) -/
+def witProblem (P : Problem) (R : Run) : Problem := if R.rigor then { P with epsH := 0 } else P
+
 /-- everything that must hold for ANY problem (no oracle needed) -/
 def resultOk (P : Problem) (R : Run) (res : Result) (pts : List (List Rat)) : Bool :=
   boundsOk R res && statusOk R res && lowerOk P res.uplo pts && infeasOk P R res pts &&
-  (match witness P R res with | .refuted => false | .undecided => false | _ => true)
+  (match witness (witProblem P R) R res with | .refuted => false | .undecided => false | _ => true)
 
 /-- with a certificate: the universal lower bound -/
 def certLowerOk (P : Problem) (C : Cert) (uplo : Ext) : Bool := C.ok P && Ext.le uplo (.fin C.c)
